@@ -32,7 +32,12 @@ func TestC09Creation(t *testing.T) {
 		}
 	})
 	on := mon.Of("rate", "create-eligible", "canary-confinement", "no-panic")
-	rapid.Check(t, func(rt *rapid.T) {
+	rapid.Check(t, func(rt *rapid.T) { c09Creation(rec, rt, on, false) })
+}
+
+// c09Creation is one generated creation sync (shared by TestC09Creation and TestC01CreateFaults).
+func c09Creation(rec *evid.Rec, rt *rapid.T, on mon.Set, forC01 bool) {
+	{
 		n := rapid.IntRange(1, 12).Draw(rt, "nodes")
 		kinds := make([]string, n)
 		for i := range kinds {
@@ -107,6 +112,9 @@ func TestC09Creation(t *testing.T) {
 		}
 		percent := st.RollingUpdate.SlowStartAdditiveIncrease.Type == 1
 		nt := percent && off > 0 && empty >= 2
+		if forC01 {
+			nt = seen > nth && (answer == sim.FaultLostAnswer || answer == sim.FaultLostAnswerTyped)
+		}
 		trace := map[string]interface{}{"nodes": kinds, "increase": st.RollingUpdate.SlowStartAdditiveIncrease.String(), "interval": interval.String(), "maxParallelPodCreation": mp, "age": ageK, "creates": creates, "oneCreateAnswer": answer.String(), "faultedCreate": nth}
 		rec.Case(nt, evid.FP(kinds, st.RollingUpdate.SlowStartAdditiveIncrease.String(), interval, mp, ageK, answer, nth), fmt.Sprintf("percent=%v", percent), fmt.Sprintf("excluded-nodes=%v", off > 0), fmt.Sprintf("created=%v", creates > 0), fmt.Sprintf("create-answer=%s", answer))
 		rec.Steps(1)
@@ -114,5 +122,20 @@ func TestC09Creation(t *testing.T) {
 			rec.Sample(trace)
 		}
 		settle(rt, rec, vs, trace, n, "")
+	}
+}
+
+// TestC01CreateFaults: the creation side of C01 when the answer to a pod creation is an error. One sync of the active
+// replica set over a generated population; one of its pod creations is refused, or stored and answered with an error
+// (generic, or ServerTimeout as for a write whose answer timed out). Whatever the answer, one sync creates at most one
+// pod per node and only on eligible nodes without a pod (create-once and create-eligible monitors).
+func TestC01CreateFaults(t *testing.T) {
+	rec := evid.New("TestC01CreateFaults", "C01", "1-12 nodes each in {empty, already served, untolerated taint, node-selector mismatch, reserved for a running canary}, both node-assignment modes, slow-start limits as in TestC09Creation; in the measured sync of the active replica set the answer to the first, second or third pod creation is drawn from {success, refused (generic error / AlreadyExists), stored but answered with an error (generic / ServerTimeout)}; oracle: create-once (never two pods for one node in one sync, counting what the store applied) and create-eligible; non-trivial = a creation was stored and answered with an error; distinct by configuration")
+	t.Cleanup(func() {
+		if !t.Failed() {
+			rec.Done()
+		}
 	})
+	on := mon.Of("create-once", "create-eligible", "no-panic")
+	rapid.Check(t, func(rt *rapid.T) { c09Creation(rec, rt, on, true) })
 }
